@@ -68,8 +68,8 @@ PROPS = {
              ["Gx.coreLoad_idem", "Gx.ParseRender.parse_render", "Gx.ParseRender.text_denotes", "Gx.C11.writer_relations_in_grammar", "Gx.C11.writer_connectives_in_grammar", "Gx.C11.reload_preserves_values"],
              ["Gx.Pins.relop_table", "Gx.Pins.writer_overrides", "Gx.Pins.grammar_names", "Gx.Pins.grammar_keywords", "Gx.Pins.grammar_ladder"],
              ns.make_run(ss.c11_case, 30, 1000, ss.c11_cfg, extra=ss.c11_extra), ss.c11_case),
-    "C13": P("GotranxProofs.Properties.C13 GotranxProofs.GenValidMissing GotranxProofs.SplitEndToEnd GotranxProofs.SplitLoader GotranxProofs.EndToEndAll",
-             ["Gx.EndToEnd.missing_end_to_end", "Gx.SplitEndToEnd.loaded_split_wf", "Gx.SplitEndToEnd.closed_of_components", "Gx.SplitEndToEnd.split_rhs_correct", "Gx.SplitEndToEnd.split_missing_correct", "Gx.SplitEndToEnd.restrict_wf", "Gx.GenValidMissing.genMissing_valid", "Gx.GenValidMissing.genMissing_correct", "Gx.GenValidMissing.missBody_facts", "Gx.C13.missing_exact", "Gx.C13.missing_sorted", "Gx.C13.split_glue", "Gx.C13.restrict_assigns", "Gx.C13.missing_values_sound",
+    "C13": P("GotranxProofs.Properties.C13 GotranxProofs.GenValidMissing GotranxProofs.SplitEndToEnd GotranxProofs.SplitLoader GotranxProofs.SplitComplement GotranxProofs.EndToEndAll",
+             ["Gx.SplitEndToEnd.split_exchange", "Gx.SplitEndToEnd.missing_defined_in_other", "Gx.EndToEnd.missing_end_to_end", "Gx.SplitEndToEnd.loaded_split_wf", "Gx.SplitEndToEnd.closed_of_components", "Gx.SplitEndToEnd.split_rhs_correct", "Gx.SplitEndToEnd.split_missing_correct", "Gx.SplitEndToEnd.restrict_wf", "Gx.GenValidMissing.genMissing_valid", "Gx.GenValidMissing.genMissing_correct", "Gx.GenValidMissing.missBody_facts", "Gx.C13.missing_exact", "Gx.C13.missing_sorted", "Gx.C13.split_glue", "Gx.C13.restrict_assigns", "Gx.C13.missing_values_sound",
               "Gx.C13.states_partition", "Gx.C13.c_missing_index_name", "Gx.checkMissingValues_sound"] + COMMON,
              ["Gx.Pins.removal_flags"],
              ns.make_run(ss.c13_case, 14, 500, ss.c13_cfg), ss.c13_case),
